@@ -22,7 +22,7 @@ CLAIM = dict(
           'SI constant through the given scale in field order; every Grid operator carries the power of radius of its dimension; all Coriolis-parameter '
           'providers normalise to 2·Ω·sinθ with Ω from the specs (recorded finding: shallow_water.get_coriolis and shallow_water_states.one_layer hard-wire '
           '2Ω = radius = 1). Does not decide equality of re-dimensionalised results under two scales numerically.'
-          ' Later additions: C12.5 radius powers, C12.7 SI defaults carry the dimension of their role (unit-dimension algebra), C12.8 counts derived from quotients of model times are rounded (DFI step count), C12.9 every field of a configuration dataclass read by the numerics takes part in ==/hash (static jit arguments and caches are keyed by equality; positive fixture).'),
+          ' Later additions: C12.5 radius powers, C12.7 SI defaults carry the dimension of their role (unit-dimension algebra), C12.8 counts derived from quotients of model times are rounded (DFI step count), C12.9 every field of a configuration dataclass read by the numerics takes part in ==/hash (static jit arguments and caches are keyed by equality; positive fixture). C12.10 the diffusion normalisation uses the grid\'s own top eigenvalue (C15.9 re-filed).'),
     note=('Assumes the user builds Grid(radius=specs.radius); pint\'s unit algebra is trusted. Exemption tables (with reasons) are in rules/c12.py.'),
     technique='taint / who-may-use analysis of default-scale constants over all call sites + typestate (dimensional → non-dimensional) by abstract interpretation + unit-of-measure analysis',
 )
